@@ -3,7 +3,9 @@
 proof:          lean/PdshVerif/Props/C18.lean about the model Opt/Settings.lean (opt_default, opt_env, getopt,
                 opt_args_early, opt_args, opt_verify, string_to_int, atoi, copy_username) against Opt/Spec.lean
 correspondence: the scratch-built pdsh / pdcp / rpdcp (`-q` dump of the effective settings, exit status, stderr;
-                `-L` for the module selection; real `-R exec` runs with a 5 s limit) vs `pdshmodel opt model`
+                `-L` for the module selection; real `-R exec` runs with a 5 s limit; the settings WHERE THEY ARE USED: user,
+                fanout (also under low RLIMIT_NOFILE), command time-out through exec, connect time-out through the real rsh
+                module against a scripted peer, remote pdcp path through pcptest.so) vs `pdshmodel opt model`
 oracle:         Opt/Spec.lean `judge` (`pdshmodel opt spec`) on the structured configuration and the real observation
 """
 import concurrent.futures
@@ -13,6 +15,7 @@ import pwd
 import re
 import subprocess
 
+from vlib import optuse
 from vlib.common import HARNESS, REPO, VERIF
 
 LEVEL = "proof"
@@ -288,8 +291,10 @@ class Real:
         self.dflt_ctmo = int(re.search(r"def CONNECT_TIMEOUT : Nat := (\d+)", gen).group(1))
         self.dflt_rcmd = {}
 
-    def run(self, pers, argv, env, timeout=20, user=None, stdin_data=None):
+    def run(self, pers, argv, env, timeout=20, user=None, stdin_data=None, nofile=None):
         cmd = [self.bin[pers]] + argv
+        if nofile is not None:      # the process's limit of open files (soft = hard)
+            cmd = ["prlimit", "--nofile=%d:%d" % (nofile, nofile)] + cmd
         if user is not None:
             cmd = ["setpriv", "--reuid", str(user), "--regid", str(user), "--clear-groups"] + cmd
         for attempt in (0, 1):      # a time-out alone is tried once more before it is reported (loaded machine)
@@ -432,6 +437,10 @@ def load_replay(ctx):
         c.wspec = k["wspec"]
     if k.get("use"):
         c.use = k["use"]
+    if k.get("ckind"):
+        c.ckind = k["ckind"]
+    if k.get("nofile"):
+        c.nofile = k["nofile"]
     c.group = "replay"
     ctx.log("replay of %s: %s env %s argv %s (signature %s)" % (os.path.basename(ctx.replay), c.pers, c.env, c.argv(),
                                                              rp.get("signature")))
@@ -715,6 +724,13 @@ def gen_use_cases(real, rng, quick):
             c = Case("dsh", (opts + base) if front else (base + opts), dict(env), [], kind="use")
             c.use, c.group = "fanout", "use"
             cases.append(c)
+    # ... and the same when few file descriptors are available (RLIMIT_NOFILE below 2 * fanout + 32, the number dsh() would
+    # like to have): the fanout in force is still the one that was given -- no silent reduction, no hang
+    for opts, env, nofile in (([("f", "2")], {}, 35), ([("f", "2")], {}, 33), ([("f", "2")], {}, 30), ([], {}, 40),
+                              ([], {"FANOUT": "3"}, 37), ([("f", "3")], {"FANOUT": "2"}, 36)):
+        c = Case("dsh", opts + [R, ("w", "h[0-6]")], dict(env), [], kind="use")
+        c.use, c.group, c.nofile = "fanout", "use", nofile
+        cases.append(c)
     # command time-out in use
     for opts, env in (([("u", "1")], {}), ([], {"PDSH_COMMAND_TIMEOUT": "1"}), ([("u", "9")], {"PDSH_COMMAND_TIMEOUT": "1"}),
                       ([("u", "1")], {"PDSH_COMMAND_TIMEOUT": "9"}), ([], {}), ([("u", "9"), ("u", "1")], {}), ([("u", "1"), ("u", "9")], {})):
@@ -736,7 +752,7 @@ def run_use_case(real, ctx, c, i, life=500):
         c.operands = [os.path.join(sdir, "conc.sh"), d, "%n", str(life)]
     else:
         c.operands = [os.path.join(sdir, "tmo.sh"), d, "%n", TMO_SLEEP]
-    rc, out, err_ = real.run("dsh", c.argv(), c.env, timeout=40)
+    rc, out, err_ = real.run("dsh", c.argv(), c.env, timeout=40, nofile=getattr(c, "nofile", None))
     obs = {}
     if c.use == "user":
         for f in os.listdir(d):
@@ -773,6 +789,10 @@ def run(ctx):
                    "{absent, command line, variable, both, twice (both orders), twice + variable, valid over hostile and back, too small "
                    "on either side, too small next to every flag / every other valued option}, every flag once and twice; user names "
                    "at LOGIN_NAME_MAX-2..+2 (-l and user@), structurally bad command lines one kind each; "
+                   "(U) the settings where they take effect, every source and option position: the user every target is contacted "
+                   "with, the number of commands running at once (also with RLIMIT_NOFILE 30..40), a command cut short or not, a host "
+                   "whose connect handshake is answered late / never (real rsh module, scripted peer), the program run on the remote "
+                   "side of a copy (pcptest.so, wrappers recording their name); "
                    "(W) remote command words (option-like, empty, blank-containing, `--`) vs the listing's Command / Infile(s) / Outfile; "
                    "refusals are classified by the kind of bad INPUT (evidence refusal_kinds), never by message wording; non-trivial = at least one "
                    "setting given by option or variable; distinct = distinct (personality, environment, argv)"}
@@ -789,6 +809,21 @@ def run(ctx):
         ctx.log("code under test contains repairs:", cov["variant_detected"], "rcmd modules:", real.avail)
         quick = ctx.quick()
         rp_case, rp_kind = load_replay(ctx)
+        # (U2) the connect time-out (real rsh module against a scripted peer that answers late / never) and the remote pdcp
+        # path (pcptest.so, uid 1000) WHERE THEY ARE USED: mostly waiting, so the group is started now and collected at the end
+        peer = bench = None
+        try:
+            peer = optuse.SlowPeer()
+        except OSError as e:
+            ctx.notes.append("connect time-out in use: skipped (%s)" % e)
+            dist["use_connect"] = "skipped (%s)" % e
+        bench = optuse.PathBench(ctx, repo)
+        if not bench.ok:
+            ctx.notes.append("remote pdcp path in use: skipped (%s)" % bench.why)
+            dist["use_path"] = "skipped (%s)" % bench.why
+        u2only = rp_case if (rp_case is not None and rp_kind == "use" and getattr(rp_case, "use", "") in ("connect", "path")) else None
+        u2pool = concurrent.futures.ThreadPoolExecutor(max_workers=1)
+        u2fut = u2pool.submit(optuse.run_all, real, Case, peer, bench, u2only) if (rp_case is None or u2only is not None) else None
         cases = []
         # (A) single-setting sweeps
         for letter in "ftu":
@@ -1207,14 +1242,14 @@ def run(ctx):
             os.chmod(sp_, 0o755)
         ucases, ugroups = gen_use_cases(real, rng, quick)
         if rp_case is not None:
-            ucases, ugroups = ([rp_case] if rp_kind == "use" else []), []
+            ucases, ugroups = ([rp_case] if rp_kind == "use" and u2only is None else []), []
         # (the commands of this group mostly sleep: a wider pool keeps the group at about the length of its longest case)
         with concurrent.futures.ThreadPoolExecutor(max_workers=24) as ex:
             ures = list(ex.map(lambda ic: run_use_case(real, ctx, ic[1], ic[0]), enumerate(ucases)))
         umod = ctx.model("opt", "".join(model_line(real, c, c.argv()) + "\n" for c in ucases), args=["model", bits])
         for i, (c, m) in enumerate(zip(ucases, umod)):
             rc, out, err_, obs = ures[i]
-            if c.use == "fanout" and rc == 0 and m.startswith("ok ") and obs.get("peak") != int(m.split(" ")[1]):
+            if c.use == "fanout" and rc == 0 and m.startswith("ok ") and obs.get("peak") != min(int(m.split(" ")[1]), 7):
                 # fewer (or more) overlapping commands than the fanout in force: once more with longer-lived commands before
                 # it is reported (a loaded machine starts the commands further apart)
                 ures[i] = run_use_case(real, ctx, c, i, life=2000)
@@ -1225,7 +1260,7 @@ def run(ctx):
                 for host, own in own_users(c):
                     uspec_in.append((c, host, base + (" uown=" + hx(own) if own is not None else "") + " uobs=" + hx(obs.get(host, "\x00not-contacted"))))
             elif c.use == "fanout":
-                uspec_in.append((c, None, base + " peak=%d" % obs["peak"]))
+                uspec_in.append((c, None, base + " peak=%d ntargets=7" % obs["peak"]))
             else:
                 uspec_in.append((c, None, base + " cut=%d short=%d long=%d" % (1 if obs["ended"] < obs["started"] or not obs["started"] else 0,
                                                                                TMO_SHORT, TMO_LONG)))
@@ -1235,7 +1270,7 @@ def run(ctx):
             i = ucases.index(c)
             rc, out, err_, obs = ures[i]
             a = c.argv()
-            case = case_record(ctx, c, a, rc, err_, "use", use=c.use, observed=obs)
+            case = case_record(ctx, c, a, rc, err_, "use", use=c.use, observed=obs, nofile=getattr(c, "nofile", None))
             if id(c) not in seen_case:
                 seen_case.add(id(c))
                 cov["evaluations"] += 1
@@ -1245,6 +1280,10 @@ def run(ctx):
                 got = ("exit 0" if "term=1" in umod[i].split(" ") else "hang") if umod[i].startswith("ok ") else umod[i]
                 if got != want:
                     ctx.disagreement("opt model vs pdsh -R exec run (settings in use)", "impl `%s` model `%s`" % (want, umod[i]), case)
+                if rc is None and umod[i].startswith("ok ") and "term=1" in umod[i].split(" "):
+                    ctx.offender("hang:in-use", "pdsh does not end on an accepted configuration (%s in use%s): env %s argv %s"
+                                 % (c.use, ", RLIMIT_NOFILE %s" % c.nofile if getattr(c, "nofile", None) else "", c.env, a[:-4] + ["..."]),
+                                 case)
                 if rc is not None and rc < 0:
                     ctx.offender("crash", "pdsh killed by signal %d" % -rc, case)
                 if c.use == "user" and rc == 0 and umod[i].startswith("ok "):
@@ -1258,7 +1297,8 @@ def run(ctx):
             if sp != "ok":
                 for clause in sp.split(" "):
                     what = {"user": "target %s was contacted as user %r" % (host, obs.get(host, "<not contacted>")),
-                            "fanout": "%s commands ran at the same time" % obs.get("peak"),
+                            "fanout": "%s commands ran at the same time%s" % (
+                                obs.get("peak"), " (RLIMIT_NOFILE %s)" % c.nofile if getattr(c, "nofile", None) else ""),
                             "timeout": "%s of %s commands of %s s ran to their end" % (obs.get("ended"), obs.get("started"), TMO_SLEEP)}[c.use]
                     ctx.offender(clause, "setting not in force where it takes effect: clause `%s`: env %s argv %s: %s"
                                  % (clause, c.env, a[:-4] + ["..."], what), dict(case, clause=clause, host=host))
@@ -1274,10 +1314,21 @@ def run(ctx):
                 ctx.offender("order-dependent:in-use", "the same options in another order contact the targets as other users: %s -> %s, "
                              "%s -> %s" % (c1.argv()[:-4], dict(k1[1]), c2.argv()[:-4], dict(k2[1])),
                              case_record(ctx, c2, c2.argv(), k2[0], b"", "use", use="user", observed=dict(k2[1])))
+        # (U2) collected: the connect time-out and the remote pdcp path in use
+        u2cases = []
+        if u2fut is not None:
+            cres, pres = u2fut.result()
+            u2pool.shutdown()
+            if peer:
+                u2cases = judge_u2(ctx, real, rank, bits, cres + pres, peer, bench, cov, dist, distinct)
+                peer.close()
+            else:
+                u2cases = judge_u2(ctx, real, rank, bits, pres, peer, bench, cov, dist, distinct)
         cov["distinct_nontrivial"] = len(distinct)
         # ---- what the run hit: every option letter / variable of the table GENERATED from opt.c, the diagnostics ----
         if rp_case is None:
-            groups = [(cases, res), (rcases, rres), (ucases, [(r[0], r[1], r[2]) for r in ures])]
+            groups = [(cases, res), (rcases, rres), (ucases, [(r[0], r[1], r[2]) for r in ures]),
+                      ([c for c, _ in u2cases], [(r[0], r[1], r[2]) for _, r in u2cases])]
             if moddir:
                 groups += [(mcases, mres), (qcases, qres)]
             hit = {"dsh": set(), "pdcp": set(), "rpdcp": set()}
@@ -1324,8 +1375,89 @@ def run(ctx):
                       "hand-written model Opt/Settings.lean tied to opt.c/main.c by differential execution of the built binaries",
                       "Gen/Dsh.lean, Gen/Opt.lean, Gen/Optable.lean regenerated from /repo (defaults, rcmd ranking; option strings and the "
                       "option / variable table by a behavioural probe: harness/consts/optable.c)",
-                      "checks/c18.py (generator, dump parser), setpriv, gcc/make"],
+                      "checks/c18.py (generator, dump parser), vlib/optuse.py (scripted rsh peer, wrapper programs), "
+                      "tests/test-modules/pcptest.so, setpriv, prlimit, gcc/make"],
         checker_cmd="lake build PdshVerif.Props.C18 && #print axioms on every theorem of Props/C18.lean")
+
+
+def judge_u2(ctx, real, rank, bits, results, peer, bench, cov, dist, distinct):
+    """the connect time-out / the remote pdcp path where they are USED: model (correspondence) and specification (oracle);
+    a case that fails is run once more, alone, before anything is said (the connect cases are a matter of seconds)"""
+    final = []
+    retries = 0
+    for c, r in results:
+        for attempt in (0, 1):
+            verdicts = judge_u2_case(ctx, real, rank, bits, c, r, peer, bench)
+            if not verdicts or attempt == 1 or retries >= 3:      # (many failures at once are not a matter of timing)
+                break
+            retries += 1
+            r = optuse.run_connect_case(real, peer, c) if c.use == "connect" else optuse.run_path_case(bench, c, 1000 + len(final))
+        for kind, a, b, case in verdicts:
+            if kind == "disagreement":
+                ctx.disagreement(a, b, case)
+            else:
+                ctx.offender(a, b, case)
+        final.append((c, r))
+        cov["evaluations"] += 1
+        dist["use_" + c.use] = dist.get("use_" + c.use, 0) + 1
+        distinct.add(("use", c.use, c.pers, tuple(sorted(c.env0.items())), tuple(c.opts0)))
+    return final
+
+
+def judge_u2_case(ctx, real, rank, bits, c, r, peer, bench):
+    """-> list of ("disagreement" | "offender", signature / what, text, case)"""
+    rc, out, err_, obs = r
+    a = c.argv()
+    out_ = []
+    ml = model_line(real, c, a)
+    sl = spec_line(real, c, None, rank)
+    if c.use == "path":
+        fix = lambda l: re.sub(r"avail=\S*", "avail=" + hx("pcptest"), re.sub(r"prog=\S*", "prog=" + hx(c.dflt_path), l))
+        ml, sl = fix(ml), re.sub(r" dfr=\S*", "", fix(sl))
+    m = ctx.model("opt", ml + "\n", args=["model", bits])[0]
+    case = case_record(ctx, c, a, rc, err_, "use", use=c.use, observed=obs, ckind=getattr(c, "ckind", None))
+    case["opts"], case["env"] = [list(o) for o in c.opts0], c.env0          # as generated (placeholders), for --replay
+    want = "hang" if rc is None else "exit %d" % rc
+    got = ("exit 0" if "term=1" in m.split(" ") else "hang") if m.startswith("ok ") else m
+    if got != want:
+        out_.append(("disagreement", "opt model vs real run (%s in use)" % c.use, "impl `%s` model `%s`" % (want, m), case))
+        return out_
+    if rc is not None and rc < 0:
+        out_.append(("offender", "crash", "%s killed by signal %d" % (c.pers, -rc), case))
+        return out_
+    if rc != 0:
+        return out_
+    mm = m.split(" ")
+    if c.use == "connect":
+        sl += optuse.connect_spec_words(c, obs, real.dflt_ctmo)
+        # correspondence: the limit the model stores decides what is observed
+        lim = int(mm[2])
+        if c.ckind == "slow":
+            cut = not obs["answered"]
+            if (lim != 0 and lim <= optuse.CT_SHORT and not cut) or ((lim == 0 or lim >= optuse.CT_LONG) and cut):
+                out_.append(("disagreement", "opt model vs pdsh -R rsh (connect time-out in use)",
+                             "limit in the model %d s, the host that answers after %.1f s was %sgiven up first"
+                             % (lim, optuse.SLOW, "" if cut else "not "), case))
+        what = "a host answering the connect handshake after %.1f s was %sgiven up before it answered" % (
+            optuse.SLOW, "not " if obs["answered"] else "") if c.ckind == "slow" else \
+            "a host that never answers was %sgiven up, pdsh ended after %.1f s" % ("not " if obs["answered"] else "", obs["wall_tenths"] / 10)
+    else:
+        progs = obs["programs"]
+        if len(progs) != 1 or obs["invocations"] != 2 or obs["arrived"] != 2:
+            out_.append(("disagreement", "%s -R pcptest run (remote program in use)" % c.pers,
+                         "two targets: programs run %s (%d invocations), files arrived on %d" % (progs, obs["invocations"], obs["arrived"]), case))
+            return out_
+        if mm[7] != hx(progs[0]):
+            out_.append(("disagreement", "opt model vs %s -R pcptest (remote program in use)" % c.pers,
+                         "program run on the targets %s, model %s" % (progs[0], unhex(mm[7])), case))
+        sl += " pobs=" + hx(progs[0])
+        what = "the program run on the targets was %s" % progs[0].replace(ctx.scratch, "@SCRATCH@")
+    sp = ctx.model("opt", sl + "\n", args=["spec"])[0]
+    if sp != "ok":
+        for clause in sp.split(" "):
+            out_.append(("offender", clause, "setting not in force where it takes effect: clause `%s`: env %s argv %s: %s"
+                         % (clause, c.env, a[:-1] + ["..."], what), dict(case, clause=clause)))
+    return out_
 
 
 def load_corpus(files):
